@@ -205,6 +205,21 @@ class FS:
         del self.nodes[r]
         self.log.append(("delete", r))
 
+    @untraced
+    def rmdir(self, p):
+        self._tick()
+        r = self._real(p, follow_last=False)
+        n = self.nodes.get(r)
+        if not n or n[0] != "d":
+            raise NotADirectoryError(p)
+        pref = r.rstrip("/") + "/"
+        if any(k.startswith(pref) for k in self.nodes):
+            raise OSError(39, "Directory not empty", p)
+        del self.nodes[r]
+        self.log.append(("delete", r))
+
+    remove = unlink
+
     # ---- shutil ----
     @untraced
     def rmtree(self, p):
